@@ -292,13 +292,28 @@ def deterministic_inference(ctx: Ctx):
                     up = par.get(call)
                     if isinstance(up, _ast.Call) and _ast.unparse(up.func).split(".")[-1] in ("Parameter", "register_buffer"):
                         continue
+                    def implies_training(t, taken):
+                        """does `t evaluating to <taken>` imply that the training flag is set?"""
+                        if isinstance(t, _ast.UnaryOp) and isinstance(t.op, _ast.Not):
+                            return implies_training(t.operand, not taken)
+                        if isinstance(t, _ast.BoolOp):
+                            if isinstance(t.op, _ast.And) and taken:
+                                return any(implies_training(v, True) for v in t.values)
+                            if isinstance(t.op, _ast.Or) and not taken:
+                                return any(implies_training(v, False) for v in t.values)
+                            return False
+                        nm = t.attr if isinstance(t, _ast.Attribute) else getattr(t, "id", None)
+                        return taken and nm in ("training", "train", "is_training")
                     guarded = False
                     x = call
                     while x in par:
                         p_ = par[x]
-                        if isinstance(p_, _ast.If) and x in p_.body:
-                            names = {n.attr if isinstance(n, _ast.Attribute) else getattr(n, "id", "") for n in _ast.walk(p_.test)}
-                            if names & {"training", "train", "is_training"}:
+                        if isinstance(p_, (_ast.If, _ast.IfExp)):
+                            body = p_.body if isinstance(p_.body, list) else [p_.body]
+                            orelse = p_.orelse if isinstance(p_.orelse, list) else [p_.orelse]
+                            if any(x is b for b in body) and implies_training(p_.test, True):
+                                guarded = True
+                            if any(x is b for b in orelse) and implies_training(p_.test, False):
                                 guarded = True
                         x = p_
                     ctx.repo.note(mi)
